@@ -615,6 +615,385 @@ theorem processStep_ainv (sc : Scene P w frames j rest full) (k : Nat) (s : Read
         | none => exact ⟨hnj, trivial, hrl⟩
         | some p => exact (hno _ _ hsr).elim
 
+/-! ## One `poll_read` -/
+
+/-- Why a read may fail: end of stream on a closed carrier, or bytes that are not the next frame. -/
+def Cause (rest : List C) (closed : Prop) : RErr → Prop
+  | .eof => closed
+  | .invalidData => 2 ≤ rest.length
+  | _ => False
+
+/-- What a whole `poll_read` guarantees in addition to `PollPost`. `good`: the carrier script never
+fails; `closed`, `str`: the carrier's flag and content; `slen`: bound on its script length. -/
+def PollPostA (w : WireOps C) (T : Nat) (frames : List Chunk) (j : Nat) (rest full : List C) (outLen : Nat)
+    (good : Prop) (closed : Bool) (str : List C) (slen : Nat) (s' : ReadSock C) (c' : RCarrier C) : ROut → Prop
+  | .ok _ _ => AInv w T frames j full s' c'
+  | .pending => AInv w T frames j full s' c' ∧
+      (good → c'.script.length < slen ∨ (closed = false ∧ (str = full → outLen = startOf frames j)))
+  | .err e => good → (closed = true → str = full) → outLen = startOf frames j ∧ Cause rest (closed = true) e
+  | _ => True
+
+def IterPostA (w : WireOps C) (T : Nat) (frames : List Chunk) (j : Nat) (rest full : List C) (outLen : Nat)
+    (good : Prop) (closed : Bool) (str : List C) (slen : Nat) (s' : ReadSock C) (c' : RCarrier C) :
+    Option ROut → Prop
+  | none => AInv w T frames j full s' c'
+  | some o => PollPostA w T frames j rest full outLen good closed str slen s' c' o
+
+theorem readIter_ainv (sc : Scene P w frames j rest full) (k : Nat) (s : ReadSock C) (c : RCarrier C)
+    (h : RInv P s c) (outLen : Nat) (hs : SInv frames s outLen) (a : AInv w P.T frames j full s c)
+    (hpre : ∃ t, c.str.toList ++ t = full) (good : Prop) (hg : good → GoodScript c.script) (slen : Nat)
+    (hsl : c.script.length ≤ slen) :
+    (readIter P w k s c).2.1.closed = c.closed ∧ (readIter P w k s c).2.1.script <:+ c.script ∧
+    IterPostA w P.T frames j rest full outLen good c.closed c.str.toList slen
+      (readIter P w k s c).1 (readIter P w k s c).2.1 (readIter P w k s c).2.2 := by
+  have hauth : Authentic w frames c.str.toList := by
+    obtain ⟨t, ht⟩ := hpre
+    exact Authentic_prefix w frames _ t (by rw [ht]; exact sc.auth)
+  unfold readIter
+  cases hst : s.st with
+  | readData m =>
+    simp only []
+    have hsn : ∀ ch a b d, s.st ≠ .process (some ch) a b d := by simp [hst]
+    obtain ⟨q1, q2, q3⟩ := readDataStep_ainv (w := w) (frames := frames) (j := j) (full := full) s c h a m hst
+    have b3 := (readDataStep_inv P w s c h m hst).2.2
+    rcases hrd : readDataStep w s c m with ⟨s', c', o⟩
+    rw [hrd] at q1 q2 q3 b3
+    simp only [] at q1 q2 q3 b3 ⊢
+    refine ⟨q1, q2, ?_⟩
+    have hdone : c.str.size ≤ c.cpos → c.str.toList = full → outLen = startOf frames j := by
+      intro hex hf
+      have := exhausted_done sc s c h a m hst hex hf
+      rw [← this]
+      exact ((SInv_eq frames s outLen hsn).1 hs).2
+    match o, q3, b3 with
+    | none, q3, _ => exact q3
+    | some .pending, q3, _ =>
+      obtain ⟨e1, e2, e3⟩ := q3
+      subst e1
+      refine ⟨a.congr e2, fun hgd => ?_⟩
+      rcases e3 (hg hgd) with l | ⟨r1, r2⟩
+      · left; omega
+      · right; exact ⟨r1, hdone r2⟩
+    | some (.err .eof), q3, _ =>
+      intro hgd hcf
+      obtain ⟨_, e2, e3⟩ := q3 (hg hgd)
+      exact ⟨hdone e3 (hcf e2), e2⟩
+    | some (.err .carrier), q3, _ =>
+      intro hgd _
+      have := (q3 (hg hgd)).1
+      cases this
+  | readFrameLen =>
+    simp only []
+    have hsn : ∀ ch a b d, s.st ≠ .process (some ch) a b d := by simp [hst]
+    have q3 := frameLenStep_ainv sc s c h hpre a hst
+    have b3 := (frameLenStep_inv P w sc.consts.r s c h hst).2.2
+    rcases hfl : frameLenStep P w s with ⟨s', o⟩
+    rw [hfl] at q3 b3
+    simp only [] at q3 b3 ⊢
+    refine ⟨trivial, List.suffix_refl _, ?_⟩
+    match o, q3, b3 with
+    | none, q3, _ => exact q3
+    | some (.err .invalidData), q3, _ =>
+      intro _ _
+      refine ⟨?_, q3.2⟩
+      rw [← q3.1]
+      exact ((SInv_eq frames s outLen hsn).1 hs).2
+  | process pending off size fsz =>
+    simp only []
+    have q3 := processStep_ainv sc k s c h hpre a pending off size fsz hst
+    have b3 := processStep_inv P w sc.laws sc.consts.r P.MAXF frames sc.frs k s c h pending off size fsz hst outLen hs hauth
+    rcases hps : processStep P w k s pending off size fsz with ⟨s', o⟩
+    rw [hps] at q3 b3
+    simp only [] at q3 b3 ⊢
+    refine ⟨trivial, List.suffix_refl _, ?_⟩
+    match o, q3, b3 with
+    | .ok n pos, q3, _ => exact q3
+    | .err .invalidData, q3, _ =>
+      intro _ _
+      obtain ⟨e1, e2, e3⟩ := q3
+      subst e2
+      have hsn : ∀ ch a b d, s.st ≠ .process (some ch) a b d := by simp [hst]
+      refine ⟨?_, e3⟩
+      rw [← e1]
+      exact ((SInv_eq frames s outLen hsn).1 hs).2
+
+theorem readLoop_ainv (sc : Scene P w frames j rest full) (k : Nat) (fuel : Nat) (s : ReadSock C) (c : RCarrier C)
+    (h : RInv P s c) (outLen : Nat) (hs : SInv frames s outLen) (a : AInv w P.T frames j full s c)
+    (hpre : ∃ t, c.str.toList ++ t = full) (good : Prop) (hg : good → GoodScript c.script) (slen : Nat)
+    (hsl : c.script.length ≤ slen) (closed : Bool) (hcl : c.closed = closed) (str : List C)
+    (hstr : c.str.toList = str) (hfuel : rmeasure s c < fuel) :
+    (readLoop P w k fuel s c).2.1.closed = closed ∧ (readLoop P w k fuel s c).2.1.script <:+ c.script ∧
+    PollPostA w P.T frames j rest full outLen good closed str slen
+      (readLoop P w k fuel s c).1 (readLoop P w k fuel s c).2.1 (readLoop P w k fuel s c).2.2 := by
+  induction fuel generalizing s c with
+  | zero => omega
+  | succ fuel ih =>
+    have hauth : Authentic w frames c.str.toList := by
+      obtain ⟨t, ht⟩ := hpre
+      exact Authentic_prefix w frames _ t (by rw [ht]; exact sc.auth)
+    unfold readLoop
+    obtain ⟨a1, a2, a3⟩ := readIter_inv P w sc.laws sc.consts.r P.MAXF frames sc.frs k s c h outLen hs hauth
+    obtain ⟨q1, q2, q3⟩ := readIter_ainv sc k s c h outLen hs a hpre good hg slen hsl
+    rcases hri : readIter P w k s c with ⟨s', c', o⟩
+    rw [hri] at a1 a2 a3 q1 q2 q3
+    simp only [] at a1 a2 a3 q1 q2 q3
+    rw [hcl, hstr] at q3
+    cases o with
+    | none =>
+      simp only []
+      simp only [IterPost] at a2
+      simp only [IterPostA] at q3
+      have := a3 rfl
+      obtain ⟨b1, b2, b3⟩ := ih s' c' a2.1 a2.2 q3 (by rw [a1]; exact hpre)
+        (fun hgd => (hg hgd).suffix q2) (by have := q2.length_le; omega) (by rw [q1, hcl]) (by rw [a1, hstr])
+        (by omega)
+      exact ⟨b1, b2.trans q2, b3⟩
+    | some o =>
+      simp only []
+      exact ⟨by rw [q1, hcl], q2, q3⟩
+
+/-- `poll_read` from an aligned state. -/
+theorem pollRead_ainv (sc : Scene P w frames j rest full) (k : Nat) (s : ReadSock C) (c : RCarrier C)
+    (h : RInv P s c) (outLen : Nat) (hs : SInv frames s outLen) (a : AInv w P.T frames j full s c)
+    (hpre : ∃ t, c.str.toList ++ t = full) :
+    (pollRead P w k s c).2.1.closed = c.closed ∧ (pollRead P w k s c).2.1.script <:+ c.script ∧
+    PollPostA w P.T frames j rest full outLen (GoodScript c.script) c.closed c.str.toList c.script.length
+      (pollRead P w k s c).1 (pollRead P w k s c).2.1 (pollRead P w k s c).2.2 :=
+  readLoop_ainv sc k _ s c h outLen hs a hpre _ id _ (Nat.le_refl _) _ rfl _ rfl (rmeasure_lt_fuel s c)
+
+/-! ## Runs -/
+
+theorem Cause.mono {rest : List C} {p q : Prop} (hpq : p → q) {e : RErr} (h : Cause rest p e) : Cause rest q e := by
+  cases e <;> simp only [Cause] at h ⊢
+  · exact hpq h
+  · exact h
+
+/-- An environment that delivers and never fails: good script entries, `close` only after the last
+delivered byte. -/
+def GoodEnv : List (REvent C) → Prop
+  | [] => True
+  | .poll _ :: es => GoodEnv es
+  | .deliver _ :: es => GoodEnv es
+  | .script hs :: es => GoodScript hs ∧ GoodEnv es
+  | .close :: es => delivered es = [] ∧ GoodEnv es
+
+/-- Number of script entries (an upper bound on the number of `Pending`s of a good carrier). -/
+def scriptLen : List (REvent C) → Nat
+  | [] => 0
+  | .script hs :: es => hs.length + scriptLen es
+  | _ :: es => scriptLen es
+
+/-- The carrier is closed at some point. -/
+def Closes : List (REvent C) → Prop
+  | [] => False
+  | .close :: _ => True
+  | _ :: es => Closes es
+
+theorem startOf_mono (frames : List Chunk) {a b : Nat} (h : a ≤ b) : startOf frames a ≤ startOf frames b := by
+  have := startOf_le (frames.take b) a
+  unfold startOf at *
+  rw [List.take_take, Nat.min_eq_left h] at this
+  exact this
+
+theorem outLen_le (sc : Scene P w frames j rest full) (s : ReadSock C) (c : RCarrier C) (h : RInv P s c)
+    (outLen : Nat) (hs : SInv frames s outLen) (a : AInv w P.T frames j full s c) :
+    outLen ≤ startOf frames j := by
+  have hn := a.nle
+  unfold SInv at hs
+  split at hs
+  · rename_i ch off _ _ e
+    obtain ⟨h1, h2, h3⟩ := hs
+    obtain ⟨fa, fb, _, _⟩ := framesFrom_get sc.frs h2
+    have hq := h.st
+    simp only [StInv, e] at hq
+    have := startOf_mono frames hn
+    have e2 : s.nonce = s.nonce - 1 + 1 := by omega
+    rw [e2] at this
+    unfold startOf at this ⊢
+    omega
+  · rw [hs.2]; exact startOf_mono frames hn
+
+theorem outBytes_append_err (pre : List ROut) (e : RErr) : outBytes (pre ++ [.err e]) = outBytes pre := by
+  induction pre with
+  | nil => rfl
+  | cons x xs ih => cases x <;> simp [outBytes, ih]
+
+/-- Safety on every stream that starts with `j` intact frames, for every environment: only the
+plaintext of these `j` frames is ever handed out. -/
+theorem run_safe (sc : Scene P w frames j rest full) (es : List (REvent C)) (s : ReadSock C) (c : RCarrier C)
+    (h : RInv P s c) (outLen : Nat) (hs : SInv frames s outLen) (a : AInv w P.T frames j full s c)
+    (hpre : ∃ t, c.str.toList ++ delivered es ++ t = full) :
+    ∃ m, outBytes (runReader P w s c es) = List.range' outLen m ∧ outLen + m ≤ startOf frames j := by
+  induction es generalizing s c outLen with
+  | nil => exact ⟨0, rfl, outLen_le sc s c h outLen hs a⟩
+  | cons e es ih =>
+    cases e with
+    | poll k =>
+      simp only [runReader]
+      have hpre' : ∃ t, c.str.toList ++ t = full := by
+        obtain ⟨t, ht⟩ := hpre
+        exact ⟨delivered es ++ t, by simpa [delivered] using ht⟩
+      have hauth : Authentic w frames c.str.toList := by
+        obtain ⟨t, ht⟩ := hpre'
+        exact Authentic_prefix w frames _ t (by rw [ht]; exact sc.auth)
+      obtain ⟨p1, p2⟩ := pollRead_inv P w sc.laws sc.consts.r P.MAXF frames sc.frs k s c h outLen hs hauth
+      obtain ⟨_, _, q3⟩ := pollRead_ainv sc k s c h outLen hs a hpre'
+      rcases hp : pollRead P w k s c with ⟨s', c', o⟩
+      rw [hp] at p1 p2 q3
+      simp only [] at p1 p2 q3
+      cases o with
+      | ok n pos =>
+        simp only [PollPost] at p2
+        simp only [PollPostA] at q3
+        obtain ⟨e1, _, _, e4, e5⟩ := p2
+        obtain ⟨m, i1, i2⟩ := ih s' c' e4 (outLen + n) e5 q3 (by rw [p1]; simpa [delivered] using hpre)
+        subst e1
+        refine ⟨n + m, ?_, by omega⟩
+        simp only [outBytes, i1]
+        rw [List.range'_append_1]
+      | pending =>
+        simp only [PollPost] at p2
+        simp only [PollPostA] at q3
+        obtain ⟨m, i1, i2⟩ := ih s' c' p2.1 outLen p2.2 q3.1 (by rw [p1]; simpa [delivered] using hpre)
+        exact ⟨m, i1, i2⟩
+      | err e => exact ⟨0, rfl, outLen_le sc s c h outLen hs a⟩
+      | panic m => exact absurd p2 (by simp [PollPost])
+      | diverged => exact absurd p2 (by simp [PollPost])
+    | deliver d =>
+      simp only [runReader]
+      exact ih s _ (RInv_deliver P s c d h) outLen hs (a.congr rfl) (by simpa [applyEnv, delivered] using hpre)
+    | script hs' =>
+      simp only [runReader]
+      exact ih s (applyEnv c (.script hs')) (RInv.congr P s c _ h rfl rfl) outLen hs (a.congr rfl)
+        (by simpa [applyEnv, delivered] using hpre)
+    | close =>
+      simp only [runReader]
+      exact ih s (applyEnv c .close) (RInv.congr P s c _ h rfl rfl) outLen hs (a.congr rfl)
+        (by simpa [applyEnv, delivered] using hpre)
+
+theorem delivered_polls (ks : List Nat) : delivered (ks.map (REvent.poll (C := C))) = [] := by
+  induction ks with
+  | nil => rfl
+  | cons x xs ih => simpa [delivered] using ih
+
+theorem delivered_append (a b : List (REvent C)) : delivered (a ++ b) = delivered a ++ delivered b := by
+  induction a with
+  | nil => rfl
+  | cons x xs ih => cases x <;> simp [delivered, ih]
+
+/-- What one poll of a run contributes, in the form the two inductions below need. -/
+theorem poll_cases (sc : Scene P w frames j rest full) (k : Nat) (s : ReadSock C) (c : RCarrier C)
+    (h : RInv P s c) (outLen : Nat) (hs : SInv frames s outLen) (a : AInv w P.T frames j full s c)
+    (hpre : ∃ t, c.str.toList ++ t = full) (hg : GoodScript c.script)
+    (hcf : c.closed = true → c.str.toList = full) :
+    ∃ s' c' o, pollRead P w k s c = (s', c', o) ∧ c'.str = c.str ∧ c'.closed = c.closed ∧
+      GoodScript c'.script ∧ c'.script.length ≤ c.script.length ∧
+      match o with
+      | .ok n pos => pos = outLen ∧ (0 < k → 0 < n) ∧ outLen + n ≤ startOf frames j ∧
+          RInv P s' c' ∧ SInv frames s' (outLen + n) ∧ AInv w P.T frames j full s' c'
+      | .pending => RInv P s' c' ∧ SInv frames s' outLen ∧ AInv w P.T frames j full s' c' ∧
+          (c'.script.length < c.script.length ∨
+            (c.closed = false ∧ (c.str.toList = full → outLen = startOf frames j)))
+      | .err e => outLen = startOf frames j ∧ Cause rest (c.closed = true) e
+      | _ => False := by
+  have hauth : Authentic w frames c.str.toList := by
+    obtain ⟨t, ht⟩ := hpre
+    exact Authentic_prefix w frames _ t (by rw [ht]; exact sc.auth)
+  obtain ⟨p1, p2⟩ := pollRead_inv P w sc.laws sc.consts.r P.MAXF frames sc.frs k s c h outLen hs hauth
+  obtain ⟨q1, q2, q3⟩ := pollRead_ainv sc k s c h outLen hs a hpre
+  rcases hp : pollRead P w k s c with ⟨s', c', o⟩
+  rw [hp] at p1 p2 q1 q2 q3
+  simp only [] at p1 p2 q1 q2 q3
+  refine ⟨s', c', o, rfl, p1, q1, hg.suffix q2, q2.length_le, ?_⟩
+  cases o with
+  | ok n pos =>
+    simp only [PollPost] at p2
+    simp only [PollPostA] at q3
+    obtain ⟨e1, _, e3, e4, e5⟩ := p2
+    exact ⟨e1, e3, outLen_le sc s' c' e4 _ e5 q3, e4, e5, q3⟩
+  | pending =>
+    simp only [PollPost] at p2
+    simp only [PollPostA] at q3
+    exact ⟨p2.1, p2.2, q3.1, q3.2 hg⟩
+  | err e =>
+    simp only [PollPostA] at q3
+    exact q3 hg hcf
+  | panic m => exact absurd p2 (by simp [PollPost])
+  | diverged => exact absurd p2 (by simp [PollPost])
+
+/-- Everything has been delivered, the script is good, the reader polls with non-empty buffers. -/
+theorem drain_polls (sc : Scene P w frames j rest full) (ks : List Nat) (hk : ∀ k ∈ ks, 1 ≤ k)
+    (s : ReadSock C) (c : RCarrier C) (h : RInv P s c) (outLen : Nat) (hs : SInv frames s outLen)
+    (a : AInv w P.T frames j full s c) (hfull : c.str.toList = full) (hg : GoodScript c.script) :
+    (∀ e, .err e ∈ runReader P w s c (ks.map .poll) →
+      outBytes (runReader P w s c (ks.map .poll)) = List.range' outLen (startOf frames j - outLen) ∧
+      Cause rest (c.closed = true) e) ∧
+    ((startOf frames j - outLen) + c.script.length ≤ ks.length →
+      outBytes (runReader P w s c (ks.map .poll)) = List.range' outLen (startOf frames j - outLen)) ∧
+    (c.closed = true → (startOf frames j - outLen) + c.script.length + 1 ≤ ks.length →
+      ∃ pre e, runReader P w s c (ks.map .poll) = pre ++ [.err e]) := by
+  induction ks generalizing s c outLen with
+  | nil =>
+    have := outLen_le sc s c h outLen hs a
+    refine ⟨by simp [runReader], fun hb => ?_, fun _ hb => by simp at hb⟩
+    simp only [List.length_nil] at hb
+    have : startOf frames j - outLen = 0 := by omega
+    rw [this]; rfl
+  | cons k ks ih =>
+    have hk1 : 1 ≤ k := hk k (List.mem_cons_self ..)
+    have hk' : ∀ k ∈ ks, 1 ≤ k := fun x hx => hk x (List.mem_cons_of_mem _ hx)
+    obtain ⟨s', c', o, hp, c1, c2, c3, c4, c5⟩ :=
+      poll_cases sc k s c h outLen hs a ⟨[], by simp [hfull]⟩ hg (fun _ => hfull)
+    simp only [List.map_cons, runReader, hp, List.length_cons]
+    cases o with
+    | ok n pos =>
+      simp only [] at c5 ⊢
+      obtain ⟨e1, e2, e3, e4, e5, e6⟩ := c5
+      subst e1
+      have hn := e2 (by omega)
+      obtain ⟨i1, i2, i3⟩ := ih hk' s' c' e4 (pos + n) e5 e6 (by rw [c1]; exact hfull) c3
+      have harith : startOf frames j - pos = n + (startOf frames j - (pos + n)) := by omega
+      have hcomb : ∀ {l}, l = List.range' (pos + n) (startOf frames j - (pos + n)) →
+          List.range' pos n ++ l = List.range' pos (startOf frames j - pos) := by
+        intro l hl; rw [hl, harith, List.range'_append_1]
+      refine ⟨fun e he => ?_, fun hb => ?_, fun hc hb => ?_⟩
+      · have he' : ROut.err e ∈ runReader P w s' c' (ks.map .poll) := by simpa using he
+        obtain ⟨j1, j2⟩ := i1 e he'
+        exact ⟨by simp only [outBytes]; exact hcomb j1, by rw [← c2]; exact j2⟩
+      · simp only [outBytes]; exact hcomb (i2 (by omega))
+      · obtain ⟨pre, e, hpe⟩ := i3 (by rw [c2]; exact hc) (by omega)
+        exact ⟨.ok n pos :: pre, e, by rw [hpe]; rfl⟩
+    | pending =>
+      simp only [] at c5 ⊢
+      obtain ⟨e4, e5, e6, e7⟩ := c5
+      obtain ⟨i1, i2, i3⟩ := ih hk' s' c' e4 outLen e5 e6 (by rw [c1]; exact hfull) c3
+      refine ⟨fun e he => ?_, fun hb => ?_, fun hc hb => ?_⟩
+      · have he' : ROut.err e ∈ runReader P w s' c' (ks.map .poll) := by simpa using he
+        obtain ⟨j1, j2⟩ := i1 e he'
+        exact ⟨by simp only [outBytes]; exact j1, by rw [← c2]; exact j2⟩
+      · simp only [outBytes]
+        rcases e7 with l | ⟨_, r⟩
+        · exact i2 (by omega)
+        · have hdone := r hfull
+          obtain ⟨m, m1, m2⟩ := run_safe sc (ks.map .poll) s' c' e4 outLen e5 e6
+            ⟨[], by rw [delivered_polls, c1, hfull]; simp⟩
+          have : m = 0 := by omega
+          rw [m1, this, hdone]; simp
+      · rcases e7 with l | ⟨r, _⟩
+        · obtain ⟨pre, e, hpe⟩ := i3 (by rw [c2]; exact hc) (by omega)
+          exact ⟨.pending :: pre, e, by rw [hpe]; rfl⟩
+        · rw [hc] at r; cases r
+    | err e =>
+      simp only [] at c5 ⊢
+      obtain ⟨e1, e2⟩ := c5
+      refine ⟨fun e' he => ?_, fun _ => ?_, fun _ _ => ⟨[], e, rfl⟩⟩
+      · have : e' = e := by simpa using he
+        subst this
+        exact ⟨by rw [e1]; simp [outBytes], e2⟩
+      · rw [e1]; simp [outBytes]
+    | panic m => exact c5.elim
+    | diverged => exact c5.elim
+
 end steps
 
 end Litep2pVerif.Noise.Transport
